@@ -151,23 +151,30 @@ func detWorkload(t *sim.Tape) (ops []detOp, desc string) {
 		}
 		return sb.String()
 	}})
-	// inputs that allocate a lot and keep little: a quarter of a gigabyte of
-	// strings that are dropped at once
-	nbig := 2500 + t.Choose(1500)
-	ops = append(ops, detOp{name: "ReadCMap / type1.Read of inputs that allocate 160-260 MB of short-lived strings", run: func() string {
-		alloc := fmt.Sprintf("%d { 65535 string pop } repeat\n", nbig)
-		d, err := postscript.ReadCMap(strings.NewReader("/CIDInit /ProcSet findresource begin 12 dict begin begincmap /CMapName /G def 1 begincodespacerange <00> <ff> endcodespacerange\n" + alloc + "endcmap CMapName currentdict /CMap defineresource pop end end\n"))
-		r := dump.Err(err)
-		if d != nil {
-			r += " " + dump.Object(d)
-		}
-		tf := gen.TinyFont(sim.ReplayTape([]uint32{1, 2}))
-		if i := bytes.IndexByte(tf, '\n'); i > 0 {
-			tf = append(append(append([]byte{}, tf[:i+1]...), alloc...), tf[i+1:]...)
-		}
-		g, err2 := type1.Read(bytes.NewReader(tf))
-		return r + " | " + dump.Err(err2) + " " + dump.Font(g)
-	}})
+	// inputs that allocate a lot and keep little: strings that are dropped at
+	// once, 80-105 MB through ReadCMap (one run in three), 270 MB through
+	// type1.Read (one run in twelve)
+	if gk := t.Choose(12); gk < 4 {
+		nbig := 1200 + t.Choose(400)
+		withFont := gk == 0
+		ops = append(ops, detOp{name: "ReadCMap (and type1.Read) of inputs that allocate 80-270 MB of short-lived strings", run: func() string {
+			alloc := fmt.Sprintf("%d { 65535 string pop } repeat\n", nbig)
+			d, err := postscript.ReadCMap(strings.NewReader("/CIDInit /ProcSet findresource begin 12 dict begin begincmap /CMapName /G def 1 begincodespacerange <00> <ff> endcodespacerange\n" + alloc + "endcmap CMapName currentdict /CMap defineresource pop end end\n"))
+			r := dump.Err(err)
+			if d != nil {
+				r += " " + dump.Object(d)
+			}
+			if !withFont {
+				return r
+			}
+			tf := gen.TinyFont(sim.ReplayTape([]uint32{1, 2}))
+			if i := bytes.IndexByte(tf, '\n'); i > 0 {
+				tf = append(append(append([]byte{}, tf[:i+1]...), "4150 { 65535 string pop } repeat\n"...), tf[i+1:]...)
+			}
+			g, err2 := type1.Read(bytes.NewReader(tf))
+			return r + " | " + dump.Err(err2) + " " + dump.Font(g)
+		}})
+	}
 	// the budget error (a shared value) with whatever text and position
 	// information it carries, several times over
 	ops = append(ops, detOp{name: "Execute(program over budget) x3", run: func() string {
